@@ -563,6 +563,22 @@ func init() {
 			c05gEnum(c, "dompat-late", base, nil, al, true, cap(120, 2500))
 		}
 
+		// ---- (1f) the witnesses of the refuted / non-vacuity lemmas of coq/RoleGraphProofs.v, on the real code
+		{
+			mfw := func(a, b string) bool { return a == "n" && (b == "p1" || b == "p2") }
+			c05gRun(c, "c05g.wit.f06", c05gCase{kind: "impl", level: 10, names: []string{"u", "p1", "p2", "admin", "x", "n"}, mf: mfw,
+				ops: [][]string{{"addmf"}, {"add", "u", "p1"}, {"add", "p2", "admin"}, {"add", "x", "n"}, {"del", "x", "n"},
+					{"has", "u", "admin"}, {"addmf"}, {"has", "u", "admin"}}})
+			c05gRun(c, "c05g.wit.f05", c05gCase{kind: "dm", level: 10, names: []string{"alice", "admin"}, domains: []string{"*", "d1", "d2"}, dmf: km,
+				ops: [][]string{{"adddmf"}, {"add", "alice", "admin", "*"}, {"add", "alice", "admin", "d1"}, {"del", "alice", "admin", "*"},
+					{"has", "alice", "admin", "d1"}, {"has", "alice", "admin", "d2"}}})
+			c05gRun(c, "c05g.wit.pattern", c05gCase{kind: "impl", level: 10, names: []string{"u", "/a/*", "/a/1", "/a/7", "/b/7", "r"}, mf: km,
+				ops: [][]string{{"addmf"}, {"add", "u", "/a/*"}, {"add", "/a/*", "r"}, {"has", "u", "/a/1"}, {"has", "/a/7", "r"},
+					{"has", "/b/7", "r"}, {"roles", "/a/1"}, {"users", "r"}}})
+			c.NonTrivial("wit.f06")
+			c.NonTrivial("wit.f05")
+			c.NonTrivial("wit.pattern")
+		}
 		// ---- (2) seeded random histories
 		levels := []int{10, 10, 10, 10, 0, 1, 2, 3}
 		nr := cap(120, 2500)
